@@ -29,11 +29,11 @@ def unit_cases(rng, k0, n):
 def run(tier, seed, replay):
     chk = common.Check("C02", tier, seed)
     st = common.check_proofs(chk, "C02", extra_dirs=("Fmt", "Gen", "C05"))
-    n = 1000 if tier == "quick" else 10000
+    n = 2500 if tier == "quick" else 15000
     C.decision_tie(chk, n, n // 2)
 
     rng = chk.rng
-    ncase = 700 if tier == "quick" else 6000
+    ncase = 1500 if tier == "quick" else 8000
     cases, derive_of, enum_of = [], {}, {}
     for k in range(ncase):
         tr = rng.choice(F.DISPLAY_TRAITS + ["Display", "Display", "Debug", "Debug"])
